@@ -412,8 +412,10 @@ func init() {
 			e.Cons.AutoAck = true
 			e.Stream.Open()
 			c.WaitIdle()
-			what := vrt.Choose(3, true, "fault")
-			kind := []string{"lookupin", "vbseqnos", "failoverlog"}[what]
+			what := vrt.Choose(4, true, "fault")
+			// (closestream: the close request of a vBucket is rejected when the rebalance closes the session, the
+			// stream stays open at the server and the stream request of the next session is refused with "exists")
+			kind := []string{"lookupin", "vbseqnos", "failoverlog", "closestream"}[what]
 			how := vrt.Choose(2, true, "answer")
 			armed := false
 			c.Fault = func(r *gocbcore.SimRequest) gocbcore.SimAnswer {
@@ -425,6 +427,9 @@ func init() {
 					return gocbcore.SimAnswer{Kind: "drop"}
 				}
 				return gocbcore.SimAnswer{}
+			}
+			if kind == "closestream" && how == 1 {
+				return // (a close request that is never answered: C13 / C18)
 			}
 			desc := fmt.Sprintf("re-open after a rebalance: a %s request is %s", kind, []string{"rejected", "never answered"}[how])
 			vrt.SetOutcome(desc)
